@@ -104,6 +104,7 @@ func FilterPlanFromSeed(seed int64, idx int, class int) FilterPlan {
 			p.ReorgAt = "cf.beforeWrite"
 		}
 	}
+	p.Legacy = r.Intn(4) == 0
 	return p
 }
 
@@ -151,6 +152,17 @@ func RunFilterSession(plan FilterPlan, onStep func(fs *FilterSession, st *StepOb
 	}
 	if err := fs.syncHeaders(tip, "ext"); err != nil {
 		return fail(err)
+	}
+	if plan.Legacy {
+		chain, err := s.ReadBlockChain()
+		if err != nil {
+			return fail(err)
+		}
+		n, err := s.Stores.LegacyIndex(hashesOf(chain))
+		if err != nil {
+			return fs, err
+		}
+		s.note("index entries moved to the legacy location: %d", n)
 	}
 
 	// A reorg injected INSIDE a filter round through a pause point. The
